@@ -117,10 +117,18 @@ def _deep_distinguish(fam, a, f):
     return None
 
 
-def _viol(st, fam, spec, drv, stream, fp, desc, split=None):
+def _viol(st, fam, spec, drv, stream, fp, desc, split=None, queried=None):
     cur = st.viol.get(fp)
     if cur is None or len(cur[1]["stream"]) > len(stream):  # keep the smallest witness
-        st.viol[fp] = (desc, {"driver": drv, "spec": spec, "stream": list(stream), "split": split})
+        st.viol[fp] = (desc, {"driver": drv, "spec": spec, "stream": list(stream), "split": split,
+                              "queried": queried})
+
+
+# 'queried-before' dimension: where the read-only queries are called
+#   every      after construction and after every insertion (both halves when merging)
+#   end        once, right before the final observation / on both halves right before merge
+#   end-left   only on the receiving half right before merge;  end-right  only on the merged-in half
+QUERY_PATTERNS = ("every", "end", "end-left", "end-right")
 
 
 def check_mergeable(fam, spec, drv, stream, idx, blobs, st, merged):
@@ -146,13 +154,34 @@ def check_mergeable(fam, spec, drv, stream, idx, blobs, st, merged):
         if direct != of:
             raise AssertionError(f"C20 harness: memoised state graph differs from straight execution on {stream}: "
                                  f"{_first_diff(direct, of)}")
+    # queried-before: the same stream with read-only queries interleaved must answer the same
+    try:
+        qpre = [fam.touched(fam.empty)]
+        for j in range(n):
+            qpre.append(fam.touched(fam.step(qpre[-1], idx[j], stream[j])))
+        for pat, b2 in (("every", qpre[-1]), ("end", fam.touched(blob))):
+            if b2 is blob:
+                continue
+            st.exec += 1
+            o2 = fam.obs_blob(b2)
+            if o2 != of:
+                lab, va, vb = _first_diff(o2, of, fam.items + fam.probes)
+                _viol(st, fam, spec, drv, stream, f"{fam.kind}/read-only-queries-change-answers/{lab}",
+                      f"with every read-only query called ({pat}) the sketch of {stream} has {lab}={va!r}, "
+                      f"without them {vb!r}", None, pat)
+    except Exception as e:
+        _viol(st, fam, spec, drv, stream, f"{fam.kind}/raised-on-valid-stream/{type(e).__name__}",
+              f"{type(e).__name__}: {e}", None, "every")
+        return
     if not merged:
         return
     for i in range(n + 1):
         bb = fam.empty
         try:
+            qb = qpre[0]
             for j in range(i, n):
                 bb = fam.step(bb, idx[j], stream[j])
+                qb = fam.touched(fam.step(qb, idx[j], stream[j]))
             oa, ka = fam.merged(blobs[i], bb)
         except Exception as e:
             _viol(st, fam, spec, drv, stream, f"{fam.kind}/merge-raised/{type(e).__name__}", f"{type(e).__name__}: {e}", i)
@@ -174,6 +203,27 @@ def check_mergeable(fam, spec, drv, stream, idx, blobs, st, merged):
                     _viol(st, fam, spec, drv, stream, f"{fam.kind}/merge-differs-from-concatenation/future-{lab}",
                           f"after also adding {y!r}: merged halves give {lab}={va!r}, "
                           f"the sketch of the concatenated stream gives {vb!r}", i)
+        # the halves were queried before being merged
+        a0 = blobs[i]
+        try:
+            ta, tb = fam.touched(a0), fam.touched(bb)
+        except Exception as e:
+            _viol(st, fam, spec, drv, stream, f"{fam.kind}/merge-raised/{type(e).__name__}", f"{type(e).__name__}: {e}", i, "end")
+            continue
+        for pat, (xa, xb) in (("every", (qpre[i], qb)), ("end", (ta, tb)), ("end-left", (ta, bb)), ("end-right", (a0, tb))):
+            if xa is a0 and xb is bb:
+                continue  # queries left no trace in either half: identical to the pair judged above
+            try:
+                oq, _kq = fam.merged(xa, xb)
+            except Exception as e:
+                _viol(st, fam, spec, drv, stream, f"{fam.kind}/merge-raised/{type(e).__name__}", f"{type(e).__name__}: {e}", i, pat)
+                continue
+            st.exec += 1
+            if oq != of:
+                lab, va, vb = _first_diff(oq, of, fam.items + fam.probes)
+                _viol(st, fam, spec, drv, stream, f"{fam.kind}/merge-after-queries-differs-from-concatenation/{lab}",
+                      f"sketch({stream[:i]}).merge(sketch({stream[i:]})), read-only queries called on the halves "
+                      f"beforehand ({pat}): {lab}={va!r}, the sketch of the concatenated stream has {vb!r}", i, pat)
     if len(st.samples) < 1 and n >= 3 and nt:
         st.samples.append({"config": fam.label(), "stream": list(stream)})
 
@@ -213,6 +263,31 @@ def check_mergeable_straight(fam, spec, drv, stream, st, merged):
             _viol(st, fam, spec, drv, stream, f"{fam.kind}/merge-differs-from-concatenation/{lab}",
                   f"sketch({stream[:i]}).merge(sketch({stream[i:]})) has {lab}={va!r}, "
                   f"the sketch of the concatenated stream has {vb!r}", i)
+        for pat in QUERY_PATTERNS:
+            try:
+                a, b = build_queried_halves(fam, stream, i, pat)
+                a.merge(b)
+                oq = tuple(fam.observe(a))
+            except Exception as e:
+                _viol(st, fam, spec, drv, stream, f"{fam.kind}/merge-raised/{type(e).__name__}", f"{type(e).__name__}: {e}", i, pat)
+                continue
+            st.exec += 1
+            if oq != of:
+                lab, va, vb = _first_diff(oq, of, fam.items + fam.probes)
+                _viol(st, fam, spec, drv, stream, f"{fam.kind}/merge-after-queries-differs-from-concatenation/{lab}",
+                      f"sketch({stream[:i]}).merge(sketch({stream[i:]})), read-only queries called on the halves "
+                      f"beforehand ({pat}): {lab}={va!r}, the sketch of the concatenated stream has {vb!r}", i, pat)
+
+
+def build_queried_halves(fam, stream, i, pat):
+    """The two halves of a split with the read-only queries called per QUERY_PATTERNS."""
+    every = pat == "every"
+    a, b = fam.build(stream[:i], every), fam.build(stream[i:], every)
+    if pat in ("end", "end-left"):
+        fam.touch(a)
+    if pat in ("end", "end-right"):
+        fam.touch(b)
+    return a, b
 
 
 def check_plain(fam, spec, drv, stream, st, merged):
@@ -233,21 +308,45 @@ def check_plain(fam, spec, drv, stream, st, merged):
     hh = h8(out)
     st.states.add(hh)
     st.outcomes.add(hh)
+    pure = fam.query_pure  # (t-digest: queries flush; its 'each' configurations are the queried dimension)
+    if pure:
+        # queried-before: read-only queries after every insertion must not change any answer
+        try:
+            fq = fam.build(stream, True)
+            oq, o0 = tuple(fam.observe(fq)), tuple(fam.observe(f))
+            v, _nt, _out = fam.check(fq, stream, "queried")
+        except Exception as e:
+            _viol(st, fam, spec, drv, stream, f"{fam.kind}/raised-on-valid-stream/{type(e).__name__}",
+                  f"{type(e).__name__}: {e}", None, "every")
+            return
+        st.exec += 1
+        st.trans += n + 1
+        if oq != o0:
+            lab, va, vb = _first_diff(oq, o0)
+            _viol(st, fam, spec, drv, stream, f"{fam.kind}/read-only-queries-change-answers/{lab}",
+                  f"with every read-only query called after every insertion the sketch of {stream} has "
+                  f"{lab}={va!r}, without them {vb!r}", None, "every")
+        for fp, desc in v:
+            _viol(st, fam, spec, drv, stream, fp, desc, None, "every")
     if merged and fam.merge_checked:
         for i in range(n + 1):
-            try:
-                a = fam.build(stream[:i])
-                b = fam.build(stream[i:])
-                a.merge(b)
-                v, _nt, out = fam.check(a, stream, "merged")
-            except Exception as e:
-                _viol(st, fam, spec, drv, stream, f"{fam.kind}/merge-raised/{type(e).__name__}", f"{type(e).__name__}: {e}", i)
-                continue
-            st.outcomes.add(h8(out))
-            st.exec += 1
-            st.trans += n + 2
-            for fp, desc in v:
-                _viol(st, fam, spec, drv, stream, fp, desc, i)
+            for pat in ((None, "end") if pure else (None,)):
+                try:
+                    if pat is None:
+                        a, b = fam.build(stream[:i]), fam.build(stream[i:])
+                    else:
+                        a, b = build_queried_halves(fam, stream, i, pat)
+                    a.merge(b)
+                    v, _nt, out = fam.check(a, stream, "merged" if pat is None else "merged-after-queries")
+                except Exception as e:
+                    _viol(st, fam, spec, drv, stream, f"{fam.kind}/merge-raised/{type(e).__name__}",
+                          f"{type(e).__name__}: {e}", i, pat)
+                    continue
+                st.outcomes.add(h8(out))
+                st.exec += 1
+                st.trans += n + 2
+                for fp, desc in v:
+                    _viol(st, fam, spec, drv, stream, fp, desc, i, pat)
     if len(st.samples) < 1 and n >= 3 and nt:
         st.samples.append({"config": fam.label(), "stream": list(stream)})
 
@@ -527,6 +626,68 @@ def _merkle_work(job):
     return st.out()
 
 
+def _merkle_hist_work(job):
+    """Construction histories: every history of every map of the chunk against every other history of the
+    SAME map, and against two representatives (canonical build, last history) of EVERY map, both directions."""
+    keys, values, lo, hi = job
+    maps = merkle_maps(keys, values)
+    st = Stats()
+    reps = []
+    for m in maps:
+        hs = L.merkle_histories(m, keys)
+        canon = ["build", sorted(dict(m))]
+        for desc in (canon, hs[-1]):
+            reps.append((m, desc, L.merkle_construct(m, desc)[0]))
+
+    def judge(ma, ca, ta, mb, cb, tb):
+        try:
+            v, _nt = L.merkle_check(ma, mb, ta, tb)
+            out = tuple((r.start, r.end) for r in ta.diff(tb))
+        except Exception as e:
+            v, out = [(f"MerkleTree/raised/{type(e).__name__}", f"{type(e).__name__}: {e}")], ()
+        st.exec += 1
+        st.trans += 1
+        if ca[0] != "build" or ca[1] != sorted(ca[1]) or cb[0] != "build" or cb[1] != sorted(cb[1]):
+            st.nontriv += 1
+        st.outcomes.add(h8((ma, mb, out)))
+        st.states.add(h8(out))
+        for fp, desc in v:
+            fp = fp.replace("/pair", "/construction-history")
+            cur = st.viol.get(fp)
+            size = len(ma) + len(mb) + len(ca[1]) + len(cb[1])
+            if cur is None or cur[1]["size"] > size:
+                st.viol[fp] = (desc + f"  [A built by {ca}, B built by {cb}]",
+                               {"driver": "merkle", "a": ma, "b": mb, "ca": ca, "cb": cb, "keys": list(keys), "size": size})
+
+    for ia in range(lo, hi):
+        ma = maps[ia]
+        trees = []
+        for desc in L.merkle_histories(ma, keys):
+            try:
+                t, ops = L.merkle_construct(ma, desc)
+            except Exception as e:
+                st.viol.setdefault(f"MerkleTree/raised/{type(e).__name__}",
+                                   (f"{type(e).__name__}: {e} while constructing {dict(ma)} by {desc}",
+                                    {"driver": "merkle", "a": ma, "b": ma, "ca": desc, "cb": desc, "keys": list(keys), "size": 0}))
+                continue
+            st.trans += ops
+            trees.append((desc, t))
+        for (ca, ta) in trees:
+            for (cb, tb) in trees:
+                judge(ma, ca, ta, ma, cb, tb)
+            for (mb, cb, tb) in reps:
+                if mb != ma:
+                    judge(ma, ca, ta, mb, cb, tb)
+                    judge(mb, cb, tb, ma, ca, ta)
+        if len(st.samples) < 1 and len(trees) > 8:
+            st.samples.append({"map": ma, "histories": [d for d, _t in trees[:6]]})
+    return st.out()
+
+
+def _merkle_job(job):
+    return _merkle_hist_work(job[1]) if job[0] == "hist" else _merkle_work(job[1])
+
+
 def run_merkle(run, tier, seed):
     t0 = time.time()
     hows = [("build", "build"), ("update", "build"), ("churn", "update"), ("build", "churn")]
@@ -537,16 +698,28 @@ def run_merkle(run, tier, seed):
     d = run.driver("merkle", {"key_sets": [{"keys": list(k), "values(+absent)": list(v),
                                             "maps": (len(v) + 1) ** len(k)} for k, v in sets],
                               "construction_pairs": hows, "pairs": "all ordered pairs"})
+    hist_sets = [(("a", "b", "c"), (1, 2))] + ([] if tier == "quick" else [(("a", "b", "c", "d"), (1, 2))])
+    d.bounds["construction_histories"] = {
+        "key_sets": [{"keys": list(k), "values(+absent)": list(v)} for k, v in hist_sets],
+        "histories": "bulk build from EVERY insertion order of the keys, alone or followed by one update-existing / "
+                     "remove / update-new; pure update sequences in every order",
+        "pairs": "every history x every history of the same map; every history x {canonical build, one "
+                 "non-canonical history} of every map, both directions"}
     jobs = []
     for keys, values in sets:
         nmaps = (len(values) + 1) ** len(keys)
         step = max(1, nmaps // 16)
         for lo in range(0, nmaps, step):
-            jobs.append((keys, values, hows, lo, min(nmaps, lo + step)))
+            jobs.append(("pairs", (keys, values, hows, lo, min(nmaps, lo + step))))
+    for keys, values in hist_sets:
+        nmaps = (len(values) + 1) ** len(keys)
+        step = 1 if nmaps > 30 else 2
+        for lo in range(0, nmaps, step):
+            jobs.append(("hist", (keys, values, lo, min(nmaps, lo + step))))
     states, outcomes = set(), set()
     cpu = 0.0
     allv = []
-    for st in pmap(_merkle_work, rotate(jobs, seed), ordered=False):
+    for st in pmap(_merkle_job, rotate(jobs, seed), ordered=False):
         cpu += st["cpu"]
         d.executions += st["exec"]
         d.transitions += st["trans"]
@@ -776,14 +949,23 @@ def replay(data):
     if drv == "merkle":
         ma, mb = thaw(rep["a"]), thaw(rep["b"])
         keys = tuple(rep["keys"])
-        ha = ("churn", keys) if rep["how_a"] == "churn" else rep["how_a"]
-        hb = ("churn", keys) if rep["how_b"] == "churn" else rep["how_b"]
-        ta, _ = L.merkle_build(ma, ha)
-        tb, _ = L.merkle_build(mb, hb)
-        print(f"map A = {dict(ma)} (constructed by {rep['how_a']}), map B = {dict(mb)} (constructed by {rep['how_b']})")
+        if "ca" in rep:
+            ta, _ = L.merkle_construct(ma, rep["ca"])
+            tb, _ = L.merkle_construct(mb, rep["cb"])
+            print(f"map A = {dict(ma)} constructed by {rep['ca']}")
+            print(f"map B = {dict(mb)} constructed by {rep['cb']}")
+            print(f"  A.root_hash = {ta.root_hash[:16]}  B.root_hash = {tb.root_hash[:16]}")
+        else:
+            ha = ("churn", keys) if rep["how_a"] == "churn" else rep["how_a"]
+            hb = ("churn", keys) if rep["how_b"] == "churn" else rep["how_b"]
+            ta, _ = L.merkle_build(ma, ha)
+            tb, _ = L.merkle_build(mb, hb)
+            print(f"map A = {dict(ma)} (constructed by {rep['how_a']}), map B = {dict(mb)} (constructed by {rep['how_b']})")
         print(f"  A.diff(B) = {ta.diff(tb)!r}")
         v, _ = L.merkle_check(ma, mb, ta, tb)
         for fp, desc in v:
+            if "ca" in rep:
+                fp = fp.replace("/pair", "/construction-history")
             print(f"  !! {fp}: {desc}")
         return 1 if v else 0
     if drv == "wrappers":
@@ -810,7 +992,7 @@ def replay(data):
             print(f"     {lab} = {val!r}")
 
     try:
-        found = _replay_stream(fam, stream, split, show)
+        found = _replay_stream(fam, stream, split, show, rep.get("queried"))
     except Exception as e:
         print(f"  !! raised {type(e).__name__}: {e}")
         return 1
@@ -819,37 +1001,59 @@ def replay(data):
     return 1 if found else 0
 
 
-def _replay_stream(fam, stream, split, show):
+def _replay_stream(fam, stream, split, show, queried=None):
     found = []
+    qnote = {None: "", "every": "  [every read-only query called after construction and after every add]",
+             "end": "  [every read-only query called once at the end / on both halves before merge]",
+             "end-left": "  [every read-only query called on A right before merge]",
+             "end-right": "  [every read-only query called on B right before merge]"}[queried]
     if split is None:
+        each = queried == "every" or fam.cfg.get("mode") == "each"
         sk = fam.new()
+        if each:
+            fam.touch(sk)
         for (x, w) in stream:
             add(sk, x, w)
-            if fam.cfg.get("mode") == "each":
-                sk.quantile(0.5)
-            print(f"  add({x!r}, count={w})")
-        found = fam.check(sk, stream, "direct")[0]
-        show(sk, "public observation")
+            print(f"  add({x!r}, count={w})" + ("   then every read-only query" if each else ""))
+            if each:
+                fam.touch(sk)
+        if queried == "end":
+            fam.touch(sk)
+            print("  every read-only query called once")
+        found = fam.check(sk, stream, "queried" if queried else "direct")[0]
+        show(sk, "public observation" + qnote)
+        if queried and (fam.mergeable or fam.query_pure):
+            f = fam.build(stream)
+            show(f, "same stream, never queried")
+            oq, o0 = tuple(fam.observe(sk)), tuple(fam.observe(f))
+            if oq != o0:
+                lab, va, vb = _first_diff(oq, o0, fam.items + fam.probes)
+                found.append((f"{fam.kind}/read-only-queries-change-answers/{lab}", f"{lab}: {va!r} != {vb!r}"))
     else:
         u, v_ = stream[:split], stream[split:]
-        a, b, f = fam.build(u), fam.build(v_), fam.build(stream)
-        print(f"  A = sketch({u})   B = sketch({v_})   F = sketch({stream})")
+        f = fam.build(stream)
+        if queried:
+            a, b = build_queried_halves(fam, stream, split, queried)
+        else:
+            a, b = fam.build(u), fam.build(v_)
+        print(f"  A = sketch({u})   B = sketch({v_})   F = sketch({stream})" + qnote)
         a.merge(b)
         print("  A.merge(B)")
         if fam.mergeable:
             oa, of = tuple(fam.observe(a)), tuple(fam.observe(f))
             show(a, "merged")
             show(f, "sketch of the concatenated stream")
+            tag = "merge-after-queries-differs-from-concatenation" if queried else "merge-differs-from-concatenation"
             if oa != of:
                 lab, va, vb = _first_diff(oa, of, fam.items + fam.probes)
-                found.append((f"{fam.kind}/merge-differs-from-concatenation/{lab}", f"{lab}: {va!r} != {vb!r}"))
+                found.append((f"{fam.kind}/{tag}/{lab}", f"{lab}: {va!r} != {vb!r}"))
             else:
                 r = _deep_distinguish(fam, a, f)
                 if r is not None:
                     y, (lab, va, vb) = r
-                    found.append((f"{fam.kind}/merge-differs-from-concatenation/future-{lab}",
+                    found.append((f"{fam.kind}/{tag}/future-{lab}",
                                   f"after also adding {y!r}: {lab}: {va!r} != {vb!r}"))
         else:
-            found = fam.check(a, stream, "merged")[0]
+            found = fam.check(a, stream, "merged-after-queries" if queried else "merged")[0]
             show(a, "merged")
     return found
